@@ -9,19 +9,21 @@ Property theorems only (model: `Model/Computed.lean`, helper lemmas: `Proofs/Com
 Computables that user handler `h` reads while it is being notified (`progs h`).  Operations: `define` (assign
 a `Computed` whose function is a read tree), `assign`, `read`, user `observe` / `unobserve` / `drop`.
 `Den s t v`: the function `t` returns `v` when it is evaluated in state `s` from scratch (Observables from
-the store, Computables by evaluating *their* functions) — "what its function would return if evaluated right now".
+the store, Computables by evaluating *their* functions) — "what its function would return if evaluated right now";
+`DenFail s t`: evaluated from scratch it raises (it arrives at a `fail` node, or at the read of a Computable whose
+function raises, or of one that is not defined).
 -/
 namespace Mesa.Computed
 open Mesa.Signals
 
 /-- states reachable from a fresh model whose user handlers do **not** read Computables while notified
-    (`progs = []`, see G7 below) by any sequence of successful operations: definitions of pure functions that
-    read only earlier Computables, assignments (also restoring old values), reads, handler (un)subscriptions
-    and deaths -/
+    (`progs = []`, see G7 below) by any sequence of operations, **whether they returned or raised**: definitions of
+    pure functions (which may raise on their own: `fail`) that read only earlier Computables, assignments (also
+    restoring old values), reads, handler (un)subscriptions and deaths -/
 inductive Reachable (decls : Nat → List Decl) : St → Prop
   | init : Reachable decls (init decls fun _ => [])
-  | step {s s' : St} {op : Op} {fuel : Nat} {v : Int} (h : Reachable decls s) (ok : OpOK s op)
-      (hs : step fuel s op = some (s', .ok v)) : Reachable decls s'
+  | step {s s' : St} {op : Op} {fuel : Nat} {r : R} (h : Reachable decls s) (ok : OpOK s op)
+      (hs : step fuel s op = some (s', r)) : Reachable decls s'
 
 theorem reachable_good {decls : Nat → List Decl} (hd : DeclsOK decls) {s : St} (h : Reachable decls s) : Good s := by
   induction h with
@@ -30,8 +32,10 @@ theorem reachable_good {decls : Nat → List Decl} (hd : DeclsOK decls) {s : St}
 
 /-- **No stale read** (partial: user handlers that read Computables while notified are excluded — G7).
     In every reachable state, whatever dependency structure (several owners, branches that switch what is
-    read, chains of Computables) and whatever history of assignments and reads: a read of a Computable
-    that returns `v` returns what its function evaluates to now; the read changes no Observable. -/
+    read, chains of Computables) and whatever history of assignments and reads — including reads and
+    definitions whose function raised (G11 repaired: nothing cached before a failure is ever served again) —:
+    a read of a Computable that returns `v` returns what its function evaluates to now; the read changes no
+    Observable. -/
 theorem C17_no_stale_partial {decls : Nat → List Decl} (hd : DeclsOK decls) {s s' : St} (h : Reachable decls s)
     {fuel c : Nat} {v : Int} (hr : step fuel s (.read c) = some (s', .ok v)) :
     s'.store = s.store ∧ ∃ x, s'.comps c = some x ∧ Den s' x.tree v := by
@@ -49,6 +53,53 @@ theorem C17_define_fresh {decls : Nat → List Decl} (hd : DeclsOK decls) {s s' 
   have ht' : x.tree = t := ht
   exact ⟨x, hx, ht', by rw [← ht']; exact hden⟩
 
+/-- **A read raises only if the function raises now** (G11, G12 repaired): in every reachable state, if reading a
+    defined Computable raises, then its function evaluated right now raises (so the dirty pre-check never lets the
+    failure of a Computable through that the function would not read any more), no Observable changed, and the
+    Computed is marked to run its function again at the next read instead of re-validating an older value. -/
+theorem C17_raise_is_fresh {decls : Nat → List Decl} (hd : DeclsOK decls) {s s' : St} (h : Reachable decls s)
+    {fuel c : Nat} {x : Comp} (hx : s.comps c = some x) {e : Err}
+    (hr : step fuel s (.read c) = some (s', .err e)) :
+    s'.store = s.store ∧ ∃ y, s'.comps c = some y ∧ y.tree = x.tree ∧ DenFail s' y.tree ∧
+      y.first = true ∧ y.dirty = true := by
+  obtain ⟨_, hst, se, _, herr⟩ := read_spec_all fuel (reachable_good hd h) hr
+  rcases herr e rfl with hnone | ⟨y, hy, hyf, hyd, hdf⟩
+  · rw [hx] at hnone; cases hnone
+  · obtain ⟨_, _, ht⟩ := (se.comps c).2 x y hx hy
+    exact ⟨hst, y, hy, ht, hdf, hyf, hyd⟩
+
+/-- "returns `v`" and "raises" exclude each other (and the value is unique): the two theorems above never both apply -/
+theorem C17_den_deterministic {s : St} {t : Tree} {v : Int} (h : Den s t v) :
+    (∀ v', Den s t v' → v' = v) ∧ ¬ DenFail s t := by
+  induction h with
+  | ret v => exact ⟨fun v' h' => by cases h'; rfl, fun h' => by cases h'⟩
+  | read k cont v _ ih =>
+    refine ⟨fun v' h' => ?_, fun h' => ?_⟩
+    · cases h' with | read _ _ _ h' => exact ih.1 v' h'
+    · cases h' with | read _ _ h' => exact ih.2 h'
+  | readC c cont x a v hx _ _ iha ih =>
+    refine ⟨fun v' h' => ?_, fun h' => ?_⟩
+    · cases h' with
+      | readC _ _ x' a' _ hx' ha' h' =>
+        rw [hx] at hx'; cases hx'
+        have := iha.1 a' ha'; subst this
+        exact ih.1 v' h'
+    · cases h' with
+      | readCFail _ _ x' hx' hf => rw [hx] at hx'; cases hx'; exact iha.2 hf
+      | readC _ _ x' a' hx' ha' hf =>
+        rw [hx] at hx'; cases hx'
+        have := iha.1 a' ha'; subst this
+        exact ih.2 hf
+      | readCUndef _ _ hx' => rw [hx] at hx'; cases hx'
+
+/-- In every reachable state a Computed that never ran, or whose last evaluation raised, is dirty (so it is not served
+    from the cache), and it remembers — and is subscribed to — exactly what that evaluation read before it raised
+    (an initial part of a way through its function; nothing for a Computed that never ran). -/
+theorem C17_failed_is_dirty {decls : Nat → List Decl} (hd : DeclsOK decls) {s : St} (h : Reachable decls s)
+    {c : Nat} {x : Comp} (hx : s.comps c = some x) (hf : x.first = true) :
+    x.dirty = true ∧ ∃ ps, Prefix x.tree ps ∧ ∀ e, e ∈ ps ↔ e ∈ x.parents :=
+  ((reachable_good hd h).inv.evald c x hx (by simp [NoS])).1 hf
+
 /-- **The cache is never stale**: in every reachable state every Computed that is not marked dirty holds
     exactly the value its function evaluates to now (so a read served from the cache is right). -/
 theorem C17_clean_is_fresh {decls : Nat → List Decl} (hd : DeclsOK decls) {s : St} (h : Reachable decls s)
@@ -65,21 +116,31 @@ theorem C17_remembers_exactly_last_reads {decls : Nat → List Decl} (hd : Decls
 
 /-- **Minimal recomputation** (partial: stated for the Computable that is read; the Computables it reads in
     turn satisfy the same statement at their own reads — lemma `callC_spec` — but this is not assembled into
-    one statement about all of them).  A read runs the function body at most once, and only if it never ran
-    before or some value it read last time (by the previous theorem: some remembered pair) differs from the
-    present value of that Observable / the up-to-date value of that Computable. -/
+    one statement about all of them).  A read — returning or raising — runs the function body at most once, and
+    only if it never ran before, or raised the last time it ran (`first`), or some value it read last time (by the
+    previous theorem: some remembered pair) differs from the present value of that Observable / the up-to-date
+    value of that Computable (or that Computable raises now). -/
 theorem C17_minimal_partial {decls : Nat → List Decl} (hd : DeclsOK decls) {s s' : St} (h : Reachable decls s)
-    {fuel c : Nat} {v : Int} {x : Comp} (hx : s.comps c = some x) (hr : step fuel s (.read c) = some (s', .ok v)) :
+    {fuel c : Nat} {r : R} {x : Comp} (hx : s.comps c = some x) (hr : step fuel s (.read c) = some (s', r)) :
     ∃ y, s'.comps c = some y ∧
       (y.evals = x.evals ∨ (y.evals = x.evals + 1 ∧ (x.first = true ∨ ∃ e ∈ x.parents, Stale s' e))) := by
   have g := reachable_good hd h
-  obtain ⟨hok, _⟩ := (exec_IH fuel).get c s s' (.ok v) NoS g.stat g.inv (by simp [NoS])
+  obtain ⟨hok, herr⟩ := (exec_IH fuel).get c s s' r NoS g.stat g.inv (by simp [NoS])
     (fun q hq => by simp [NoS] at hq) hr
-  obtain ⟨y, hy, _, _, hj⟩ := (hok v rfl).clean
-  refine ⟨y, hy, ?_⟩
-  rcases hj x hx with hj | ⟨h1, _, h3⟩
-  · exact Or.inl hj
-  · exact Or.inr ⟨h1, h3⟩
+  have fin : ∀ y, Justified x s' y →
+      (y.evals = x.evals ∨ (y.evals = x.evals + 1 ∧ (x.first = true ∨ ∃ e ∈ x.parents, Stale s' e))) := by
+    intro y hj
+    rcases hj with hj | ⟨h1, _, h3⟩
+    · exact Or.inl hj
+    · exact Or.inr ⟨h1, h3⟩
+  cases r with
+  | ok v =>
+    obtain ⟨y, hy, _, _, hj⟩ := (hok v rfl).clean
+    exact ⟨y, hy, fin y (hj x hx)⟩
+  | err e =>
+    rcases (herr e rfl).failed with hnone | ⟨y, hy, _, _, _, hj⟩
+    · rw [hx] at hnone; cases hnone
+    · exact ⟨y, hy, fin y (hj x hx)⟩
 
 /-- A read of a Computable that is not dirty runs no function at all and changes nothing. -/
 theorem C17_cached_read_is_free {decls : Nat → List Decl} (hd : DeclsOK decls) {s : St} (h : Reachable decls s)
@@ -318,6 +379,41 @@ theorem C17_no_stale_refuted_with_reading_handler :
 /-- the same history without the reading handler is fine (non-vacuity of `C17_no_stale_partial`): 70 -/
 example : (runOps 30 (init exDecls fun _ => []) g7ops).map (·.2) = some [.ok 0, .ok 0, .ok 0, .ok 70] := by
   decide +kernel
+
+/-! ### functions that raise: non-vacuity -/
+
+/-- one owner: Observables `x` (0), `d` (1), Computables `c4` (2), `c` (3); a second owner with the Observable `flag` -/
+def flDecls : Nat → List Decl := fun o =>
+  if o = 0 then [⟨0, .obs, [.change]⟩, ⟨1, .obs, [.change]⟩, ⟨2, .comp, [.change]⟩, ⟨3, .comp, [.change]⟩]
+  else if o = 1 then [⟨0, .obs, [.change]⟩] else []
+/-- `c4 = 10 // d` -/
+def divTree : Tree := .read (0, 1) fun d => if d = 0 then .fail else .ret (10 / d)
+
+/-- G11 (repaired): `c4 = 10 // d` with `d = 1` is 10; `d = 0`: the read raises; the next read raises again (before
+    the repair it re-validated the half-built dependency set and served the 10 cached before the failure); `d = 2`: 5 -/
+example : (runOps 40 (init flDecls fun _ => [])
+    [.assign (0, 1) 1, .define 0 0 2 divTree, .assign (0, 1) 0, .read 0, .read 0, .assign (0, 1) 2, .read 0]).map (·.2) =
+    some [.ok 0, .ok 10, .ok 0, .err .user, .err .user, .ok 0, .ok 5] := by decide +kernel
+
+/-- G12 (repaired): `c = x + (c4 if flag else 0)` reads `x`, then `flag` (another owner), then `c4`: the remembered
+    values are kept per owner, so the dirty pre-check looks at `x`, `c4`, `flag` in that order.  With `flag = 0` and
+    `d = 0` the function does not read `c4` any more and returns 0; before the repair the pre-check let the
+    `ZeroDivisionError` of `c4` through and every later read of `c` raised -/
+example : (runOps 60 (init flDecls fun _ => [])
+    [.assign (0, 1) 1, .assign (1, 0) 1, .define 0 0 2 divTree,
+     .define 1 0 3 (.read (0, 0) fun x => .read (1, 0) fun fl => if fl = 0 then .ret x else .readC 0 fun a => .ret (x + a)),
+     .assign (1, 0) 0, .assign (0, 1) 0, .read 1, .read 1]).map (·.2) =
+    some [.ok 0, .ok 0, .ok 10, .ok 10, .ok 0, .ok 0, .ok 0, .ok 0] := by decide +kernel
+
+/-- non-vacuity of `C17_raise_is_fresh` / `DenFail`: with `d = 0` the function of `c4` raises -/
+example (s : St) (h : s.store (0, 1) = 0) : DenFail s divTree := by
+  refine .read _ _ ?_
+  rw [h]; exact .fail
+
+/-- … and of the hypotheses about definitions: `divTree` is an admissible function -/
+example : Pure divTree ∧ Ranked 0 divTree :=
+  ⟨.read _ _ fun d => by by_cases h : d = 0 <;> simp only [h, if_true, if_false] <;> first | exact .fail | exact .ret _,
+   .read _ _ fun d => by by_cases h : d = 0 <;> simp only [h, if_true, if_false] <;> first | exact .fail | exact .ret _⟩
 
 /-! ### cycles: non-vacuity -/
 
